@@ -132,7 +132,28 @@ def oracle_history(rng, nsteps):
             if not history.wf(pool[-1]):
                 return (f'MPS.from_vector(d={d}, nsites={L}, tol={tol}) returns an object whose quantum-number lists do not have the '
                         f'lengths of the bond dimensions: {[len(q) for q in pool[-1].qD]} vs {pool[-1].bond_dims}'), log
+    if rng.random() < 0.35:
+        # a state in an empty sector (the zero state): every tensor splitting then goes through the dummy-bond branches
+        L0 = pool[0].nsites
+        z = rnd_like(rng, mpsgen.rand_mps(rng, L=L0, qd=pool[0].qd.copy(), maxD=2, consistent=False,
+                                          boundary=(int(pool[0].qD[0][0]), int(pool[0].qD[-1][0]) + 7)), True)
+        pool.append(z)
+        log.append({'h': 'zero_sector_state', 'qD': [q.tolist() for q in z.qD]})
     for _ in range(nsteps):
+        # tensor splitting (a public operation of C02's list): merge a neighbouring pair and split it again
+        cand = [i for i, o in enumerate(pool) if type(o).__name__ == 'MPS' and o.nsites >= 2]
+        if cand and rng.random() < 0.3:
+            k = int(rng.choice(cand)); o = pool[k]; i = int(rng.integers(0, o.nsites - 1))
+            distr = ['left', 'right', 'sqrt'][int(rng.integers(0, 3))]
+            log.append({'h': 'merge_split', 'obj': k, 'site': i, 'svd_distr': distr})
+            try:
+                Am = ptn.merge_mps_tensor_pair(o.A[i], o.A[i + 1])
+                o.A[i], o.A[i + 1], o.qD[i + 1] = ptn.split_mps_tensor(Am, o.qd, o.qd, [o.qD[i], o.qD[i + 2]], distr, 0)
+            except Exception as ex:
+                return f'split_mps_tensor(merge(A[{i}], A[{i + 1}]), svd_distr={distr!r}, tol=0) raises {type(ex).__name__}: {ex}', log
+            if not history.wf(o):
+                return (f'after merging and re-splitting sites {i},{i + 1} of object {k} (svd_distr={distr!r}, qD={[np.asarray(q).tolist() for q in o.qD]}): '
+                        'a tensor entry violates the quantum-number rule / a charge list has the wrong length'), log
         op = history.choose_op(rng, pool, allow_invalid=0.0)
         log.append({k: (str(v) if isinstance(v, complex) else [str(x) for x in v] if isinstance(v, list) else v) for k, v in op.items()})
         tgt = op['i'] if op['h'] in ('ortho_mps', 'ortho_mpo', 'compress') + history.INPLACE_EVO else None
